@@ -113,11 +113,18 @@ QVariant attrValue(const QJsonObject &e)
     return QVariant(fromUnits(e["v"].toArray()));
 }
 
+QList<int> g_flushed;
+
 class RecSink : public Sink
 {
 public:
     explicit RecSink(int id) : m_id(id) { }
     void send(const LogMessage &lmsg) override { logCall(m_id, lmsg); }
+    bool flush() override
+    {
+        g_flushed.append(m_id);
+        return m_id % 2 == 0;           // some sinks report failure: the walk must go on
+    }
 
 private:
     int m_id;
@@ -404,6 +411,16 @@ int main(int argc, char **argv)
                 ev["e"] = "Clear";
                 ev["p"] = p;
                 ev["items"] = S.itemsOf(p);
+            } else if (name == "flush") {
+                const int p = op["p"].toInt();
+                g_flushed.clear();
+                S.simple.value(p)->flush();
+                ev["e"] = "Flush";
+                ev["p"] = p;
+                QJsonArray a;
+                for (int i : g_flushed)
+                    a.append(i);
+                ev["sinks"] = a;
             } else if (name == "root") {
                 root = op["p"].toInt();
                 ev["e"] = "Root";
